@@ -22,7 +22,7 @@ TRUSTED = ["harness hsasl: scripted Socket, receive_message override recording t
 ASSUMPTIONS = ["transport read contract: recvmsg returns 1..=buf.len() bytes of the stream with their fds, or 0 at EOF; never an error",
                "transport write contract: all bytes are eventually written in order, never an error",
                "p2p connection (no Hello exchange); Linux (the NUL byte is part of the first write)"]
-PARTIAL = ["C17_conforms_partial", "C17_complete_partial", "C17_nopanic_partial"]
+PARTIAL = []
 
 FIRST = g.C_FIRST + g.C_FIRST_MORE
 MECHS = ["E", "A", "e", "a"]
@@ -143,12 +143,12 @@ def search(rng, bad_cases):
 ENABLED = True
 LEVEL = "proof"
 LEVEL_TEXT = ("Theorems in coq/theories/Properties/C17.v about a Gallina mirror of Client::{authenticate, send_secondary_commands, "
-              "receive_secondary_responses, perform} over the shared line reader: for EVERY server stream and EVERY chunking, if the client "
-              "completes then the stream begins with OK <32-hex GUID> (equal to the expected one), fd passing is enabled exactly when the "
-              "answer to NEGOTIATE_UNIX_FD is AGREE_UNIX_FD, and exactly the bytes after the handshake lines and all fds are handed to "
-              "the message reader (C17_done_sound, no exclusions); the outcome does not depend on the chunking; a proper acceptance "
-              "completes and nothing panics unless an LF stands where a reply line should start (PARTIAL: that one class is a confirmed "
-              "finding).")
+              "receive_secondary_responses, perform} over the shared line reader, all at full strength (every server stream, every "
+              "chunking, no excluded class since fix 49785cde): if the client completes then the stream begins with OK <32-hex GUID> "
+              "(equal to the expected one), fd passing is enabled exactly when the answer to NEGOTIATE_UNIX_FD is AGREE_UNIX_FD, and "
+              "exactly the bytes after the handshake lines and all fds are handed to the message reader (C17_done_sound); the outcome "
+              "is the one an independent specification prescribes (C17_conforms: a proper acceptance completes, everything else fails); "
+              "the outcome does not depend on the chunking; nothing panics (C17_nopanic).")
 LEVEL_NOTE = ("Trusted: Coq kernel; the hand-written model, tied to the code by running the real client handshake over a scripted socket "
               "(and over a real abstract unix socket for expected GUIDs) on ~25k (quick) reply sequences/chunkings; the transport "
               "contracts; p2p connections only (no Hello). The hand-off from the leftover buffer into Message parsing is C14's subject; "
